@@ -6,6 +6,7 @@ CONSTANTS
   GroupAuthz = FALSE
   Callers = {"alice"}
   DeepReload = FALSE
+  LenSet = {1}
   PolicyClients = {"alice"}
 INVARIANTS TypeOK
 PROPERTIES StepsOK
